@@ -148,6 +148,14 @@ pub fn directed() -> Vec<(&'static str, Scn)> {
                 "sched": {"explicit": ["c2s:HSACK#0:hold2", "c2s:DATA#1:drop", "c2s:DATA#2:drop", "c2s:DATA#3:drop",
                     "c2s:DATA#4:drop", "c2s:DATA#5:hold2", "s2c:ACK#0:hold2", "s2c:ACK#1:hold2"]}})),
         ),
+        // data arrives at a host whose own send window is closed (its peer does
+        // not read for 30 rounds) while it still has bytes queued: the ACK for
+        // the arriving data must go out on its own, nothing can piggyback it
+        (
+            "ack-while-own-send-window-closed",
+            scn(json!({"cfg": {"recv_cap": 100}, "c2s": {"total": 1000, "wchunks": [1000], "rbufs": [100], "read_pause": 30},
+                "s2c": {"total": 40, "wchunks": [40], "rbufs": [4096], "write_delay": 6}, "sched": {"explicit": []}})),
+        ),
         // receive buffer beyond the 16-bit window field: the reader lags until
         // the window closes, then drains with reads far below half the buffer
         (
